@@ -106,6 +106,11 @@ retry_fetch_lv:
             v_at_fetch_lv.get_vinsert_delete()) {
             goto retry_fetch_lv; // NOLINT
         }
+        if constexpr (!is_inlinable<ValueType>()) {
+            // A concurrent remove clears the slot before it shrinks the permutation
+            // and does not bump the version, so the checks above cannot see it.
+            if (vp == nullptr) { goto retry_fetch_lv; } // NOLINT
+        }
         out = std::make_pair(v_body, value::get_len(vp));
         return status::OK;
     }
